@@ -396,6 +396,62 @@ def model_expected(m5: Model5, db: proto.TypeDB, tids: typing.List[str]) -> typi
 
 
 # ------------------------------------------------------------------------------------------------
+# translator self-test: translated Gallina (extracted) vs. the original Python functions of /repo
+# ------------------------------------------------------------------------------------------------
+
+def translator_selftest(chk: core.Check, exe5: str) -> typing.Tuple[int, typing.List[dict]]:
+    rng = chk.rng
+    b2b = list(range(-3, 70)) + [rng.randrange(0, 2 ** 40) for _ in range(40)]
+    fit = list(range(-2, 70)) + [128, 1000]
+    lit: typing.List[typing.List[typing.Any]] = []
+    for w in range(1, 65):
+        for v in {0, 2 ** w - 1, rng.randrange(2 ** w)}:
+            lit.append([True, w, str(v)])
+        if w >= 2:
+            lo, hi = -2 ** (w - 1), 2 ** (w - 1) - 1
+            for v in {lo, hi, -1, rng.randint(lo, hi)}:
+                lit.append([False, w, str(v)])
+    flt = []
+    for _ in range(60 if chk.tier == 'quick' else 400):
+        n = rng.choice([0, 1, -1, rng.randint(-10 ** 6, 10 ** 6), rng.randint(-10 ** 30, 10 ** 30)])
+        d = rng.choice([1, 1, 3, 10, rng.randint(1, 10 ** 6), 10 ** rng.randint(1, 60)])
+        fr = fractions.Fraction(n, d)
+        flt.append([rng.choice([16, 32, 64]), str(fr.numerator), str(fr.denominator)])
+    bad: typing.List[dict] = []
+    total = 0
+    m5 = Model5(exe5, proto.TypeDB({'types': []}))
+    mb2b = m5.run(['b2b %d' % n for n in b2b])
+    mfit = m5.run(['fit %d' % w for w in fit])
+    mlit = m5.run(['lit %s %d %s' % ('u' if u else 's', w, v) for u, w, v in lit])
+    mflt = m5.run(['flt %s %s' % (n, d) for _, n, d in flt])
+    for lang in ('c', 'cpp'):
+        p = core.run([core.PY, os.path.join(core.VERIF, 'tools', 'harness', 'c05_impl.py')], env=core.repo_env(), timeout=300,
+                     input=json.dumps({'b2b': b2b, 'fit': fit, 'lit': lit, 'flt': flt, 'lang': lang}))
+        try:
+            impl = json.loads(p.stdout[p.stdout.index('{'):])
+        except ValueError:
+            return total, [{'what': 'implementation harness failed', 'log': p.stdout[-800:]}]
+        for name, args, mod, imp in (('filter_bits2bytes_ceil', b2b, mb2b, impl['b2b']), ('_CFit.get_best_fit', fit, mfit, impl['fit'])):
+            for a, m, i in zip(args, mod, imp):
+                total += 1
+                if m != 'ok ' + i:
+                    bad.append({'function': name, 'argument': a, 'translated': m, 'python': i})
+        for (u, w, v), m, i, sb in zip(lit, mlit, impl['lit'], impl['std']):
+            total += 1
+            t = m.split()
+            if len(t) < 2 or t[1] != i.replace(' ', '_'):
+                bad.append({'function': 'filter_literal (integer)', 'argument': [u, w, v], 'translated': m, 'python': i})
+        for (w, n, d), m, i in zip(flt, mflt, impl['flt']):
+            total += 1
+            t = m.split()
+            ctype = 'double' if w == 64 else 'float'
+            want = impl['cast_format'].format(type=ctype, value=t[1].replace('_', ' ') if len(t) > 1 else '?')
+            if i != want:
+                bad.append({'function': 'filter_literal (float)', 'argument': [w, n, d], 'translated': m, 'python': i, 'lang': lang})
+    return total, bad
+
+
+# ------------------------------------------------------------------------------------------------
 # comparisons
 # ------------------------------------------------------------------------------------------------
 
@@ -418,7 +474,7 @@ def check_meta(tgt: proto.Target, c: dict, got: str, mexp: dict) -> typing.Tuple
             n += 1
             mv = xm.get('%s.%s' % (fam, key))
             if d[key] != str(want[key]) or (mv is not None and d[key] != mv):
-                probs.append({'key': key, 'got': d[key], 'pydsdl': want[key], 'model': mv})
+                probs.append({'key': key, 'got': d[key], 'pydsdl': want[key], 'model': mv, 'impl_wrong': d[key] != str(want[key])})
     if 'extent_bytes' in d and 'buffer_bytes' in d and d['buffer_bytes'].isdigit() and d['extent_bytes'].isdigit():
         n += 1
         if int(d['buffer_bytes']) > int(d['extent_bytes']):
@@ -441,7 +497,7 @@ def check_meta(tgt: proto.Target, c: dict, got: str, mexp: dict) -> typing.Tuple
             n += 1
             mv = mcaps[i] if i < len(mcaps) else None
             if d[key] != str(want[key]) or (mv is not None and d[key] != mv):
-                probs.append({'key': key, 'got': d[key], 'pydsdl': want[key], 'model': mv})
+                probs.append({'key': key, 'got': d[key], 'pydsdl': want[key], 'model': mv, 'impl_wrong': d[key] != str(want[key])})
     if c['kind'] == 'union' and 'union_count' in d:
         n += 1
         mv = xm.get(('cpp' if fam == 'cpp' else 'c') + '.union_count')
@@ -561,8 +617,15 @@ def main(chk: core.Check, replay: typing.Optional[str] = None) -> int:
     distinct = set()
     evaluations = validated = 0
 
+    if ok5:
+        n_st, bad_st = translator_selftest(chk, exe5)
+        stats['translator_selftest_compared'] = n_st
+        evaluations += n_st
+        for b in bad_st[:1]:
+            failures.append({'kind': 'translator-selftest', 'detail': b, 'all': bad_st[:10]})
+
     for rnd in range(rounds):
-        if not okc:
+        if not okc or failures:
             break
         work = core.scratch('c05-')
         spec = dsdlgen.generate(chk.rng, n_types=n_types, budget=1600 if chk.tier == 'quick' else 2400)
@@ -618,8 +681,19 @@ def main(chk: core.Check, replay: typing.Optional[str] = None) -> int:
                 for s in strata:
                     stats['strata'][s] = stats['strata'].get(s, 0) + 1
                     distinct.add((tid, s, tgt.name))
-                if probs and not any(f['kind'] == 'meta' and f['label'] == lab for f in failures):
-                    failures.append({'kind': 'meta', 'label': lab, 'target': tgt.name, 'options': tgt.options, 'tid': tid, 'request': 'meta ' + tid,
+                wrong = [p for p in probs if p.get('impl_wrong', True)]
+                if probs and not wrong and not any(f['kind'] == 'model-vs-impl' for f in failures):
+                    failures.append({'kind': 'model-vs-impl', 'label': lab, 'tid': tid, 'problems': probs, 'got': got,
+                                     'files': needed_files(prep, tid)})
+                probs = wrong
+                if probs:
+                    nf = len(needed_files(prep, tid))
+                    old = [f for f in failures if f['kind'] == 'meta' and f['label'] == lab]
+                    if old and old[0]['_nfiles'] <= nf:
+                        continue
+                    for f in old:
+                        failures.remove(f)
+                    failures.append({'_nfiles': nf, 'kind': 'meta', 'label': lab, 'target': tgt.name, 'options': tgt.options, 'tid': tid, 'request': 'meta ' + tid,
                                      'problems': probs, 'got': got, '_prep': prep, '_tgt': tgt})
         for tid in tids[:6]:
             if len(samples) < 24 and meta_results:
@@ -688,8 +762,14 @@ def main(chk: core.Check, replay: typing.Optional[str] = None) -> int:
                         problem = 'error class differs from the specification (%s)' % so
                 if problem and campaign.PMR_MOVE and tgt.options.get('std') == 'c++17-pmr' and 'bytes differ' in problem:
                     problem = None       # F-CPP-PMR-UNION-MOVE is C01's finding (object construction under pmr), not a size-bound matter
-                if problem and not any(f['kind'] == 'capacity' and f['label'] == lab for f in failures):
-                    failures.append({'kind': 'capacity', 'label': lab, 'target': tgt.name, 'options': tgt.options, 'tid': tid, 'cap_bytes': cap,
+                if problem:
+                    nf = len(needed_files(prep, tid))
+                    oldf = [f for f in failures if f['kind'] == 'capacity' and f['label'] == lab]
+                    if oldf and oldf[0]['_nfiles'] <= nf:
+                        continue
+                    for f in oldf:
+                        failures.remove(f)
+                    failures.append({'_nfiles': nf, 'kind': 'capacity', 'label': lab, 'target': tgt.name, 'options': tgt.options, 'tid': tid, 'cap_bytes': cap,
                                      'max_bytes': maxb, 'request': req, 'expected_spec': so, 'got': got, 'problem': problem, 'value': v,
                                      '_prep': prep, '_tgt': tgt})
         for (tid, v, cap, maxb), req, so in list(zip(ser_cases, reqs, spec_out))[::max(1, len(reqs) // 12)]:
@@ -744,7 +824,11 @@ def main(chk: core.Check, replay: typing.Optional[str] = None) -> int:
             rep['what'] = {'spec-vs-pydsdl-meta': 'Spec/Meta.v disagrees with the bit-length numbers pydsdl reports',
                            'model-vs-pydsdl': 'the C05 model (translated filters + template scan) disagrees with the DSDL definition',
                            'spec-vs-pydsdl-capacity': 'ser_spec disagrees with ceil(max_bits/8)',
-                           'model-capcheck': 'the scanned capacity check disagrees with ceil(max_bits/8)'}.get(f['kind'], f['kind'])
+                           'model-capcheck': 'the scanned capacity check disagrees with ceil(max_bits/8)',
+                           'model-vs-impl': 'the C05 model disagrees with the generated code although the code agrees with pydsdl '
+                                            '(model or template scan out of date)',
+                           'translator-selftest': 'a T2-translated function disagrees with the Python original (translator defect or '
+                                                  'unsupported change of the function)'}.get(f['kind'], f['kind'])
             chk.violation(rep, found_input=False)
             reported = True
             break
